@@ -108,14 +108,18 @@ contract(Contract(
 
 # --------------------------------------------------------------------------- ellipses.replace_match
 def ellipsis_pattern_shape():
+    """ELLIPSIS_PATTERN is five consecutive capture groups and the language of group 3 is exactly {'...'} (C09: only
+    three-dot runs are touched).  Stated on the language, not the spelling; the same fact is the ST obligation of
+    props/C09.py, which reports its failure as a violation with a searched input."""
+    from vfcore import relang
     pat = extract.live_module(EL).ELLIPSIS_PATTERN
-    tree = sre_parse.parse(pat.pattern, pat.flags)
-    ops = [str(op) for op, _ in tree]
-    if ops != ["SUBPATTERN"] * 5 or pat.groups != 5:
-        raise GenError("contract drift: ELLIPSIS_PATTERN is no longer five consecutive groups: %s" % ops)
-    g3 = list(tree)[2][1][3]
-    if [str(op) for op, _ in g3] != ["LITERAL"] * 3 or {v for _, v in g3} != {ord(".")}:
-        raise GenError("contract drift: group 3 of ELLIPSIS_PATTERN is not '...'")
+    groups = relang.top_groups(pat)
+    if [g for g, _ in groups] != [1, 2, 3, 4, 5] or pat.groups != 5:
+        raise GenError("contract drift: ELLIPSIS_PATTERN is no longer five consecutive groups: %s" % [g for g, _ in groups])
+    lang = relang.finite_language(groups[2][1])
+    if lang != {"..."}:
+        raise GenError("precondition of the callback contract fails: group 3 of ELLIPSIS_PATTERN matches %r, not exactly '...'"
+                       % (sorted(lang) if lang is not None else "an unbounded language"))
 
 
 def el_setup(ex):
